@@ -219,6 +219,26 @@ impl Session {
                     Err(e) => json!({"err": format!("{:#}", e)}),
                 }
             }
+            "ls" => {
+                fn walk(d: &Path, base: &Path, out: &mut Vec<Value>) {
+                    if let Ok(rd) = std::fs::read_dir(d) {
+                        let mut es: Vec<_> = rd.flatten().collect();
+                        es.sort_by_key(|e| e.path());
+                        for e in es {
+                            let p = e.path();
+                            if p.is_dir() {
+                                walk(&p, base, out);
+                            } else {
+                                let len = e.metadata().map(|m| m.len()).unwrap_or(0);
+                                out.push(json!([p.strip_prefix(base).unwrap_or(&p).to_string_lossy(), len]));
+                            }
+                        }
+                    }
+                }
+                let mut out = vec![];
+                walk(&self.dir, &self.dir, &mut out);
+                json!({"rows": out})
+            }
             "squeeze" => {
                 // leave at most `leave` bytes available to Pool::Query of the shared MemoryBudget (C17)
                 use turdb::memory::Pool;
